@@ -46,7 +46,12 @@ def ref_table(src, args, ret, sp, extra=None, fname=None, kwargs=None, keep_valu
             targs = [refsem.lift(t, v) for (_, t), v in zip(args, vals)]
             st.ovf = False
             st.minw = 99
-            res = fn(*targs, **(kwargs or {}))
+            if callable(kwargs):
+                kw = kwargs()
+                kw.update({nm: tv for (nm, _), tv in zip(args, targs)})
+                res = fn(**kw)
+            else:
+                res = fn(*targs, **(kwargs or {}))
             if st.doubt:
                 rt.undefined += 1
                 continue
